@@ -64,11 +64,22 @@ func main() {
 	}
 	lg()
 	r := NewRun(sc, *tier, *seed, *out)
-	if *replay != "" {
-		s.Replay(r, readLines(*replay))
-	} else {
-		s.Gen(r, NewRng(*seed))
-	}
+	func() {
+		// a monitor that found the implementation unable to continue (e.g. a store left locked) ends the run
+		// after recording its failure; everything emitted so far is still compared
+		defer func() {
+			if x := recover(); x != nil {
+				if _, ok := x.(stopRun); !ok {
+					panic(x)
+				}
+			}
+		}()
+		if *replay != "" {
+			s.Replay(r, readLines(*replay))
+		} else {
+			s.Gen(r, NewRng(*seed))
+		}
+	}()
 	r.Close()
 }
 
